@@ -117,6 +117,16 @@ var c18Failing = []struct {
 		_, err := e.c.Monitor(ctx, m)
 		return err
 	}},
+	{"monitor:condition-that-cannot-be-converted", func(e *c18Env) error {
+		// a conditional table whose condition compares a string column with an integer
+		m := e.w.NewModel("T1")
+		ptr := fieldPtrByColumn(e.w, "T1", m, "name")
+		mon := e.c.NewMonitor(client.WithConditionalTable(m, []model.Condition{{Field: ptr, Function: ovsdb.ConditionEqual, Value: 42}}))
+		ctx, cancel := e.ctx()
+		defer cancel()
+		_, err := e.c.Monitor(ctx, mon)
+		return err
+	}},
 	{"monitor:no-tables", func(e *c18Env) error {
 		ctx, cancel := e.ctx()
 		defer cancel()
